@@ -155,7 +155,7 @@ func (c *Content) WithFileInfoDefaults(umask fs.FileMode, mtime time.Time) *Cont
 				cc.FileInfo.MTime = info.ModTime()
 			}
 			if cc.FileInfo.Mode == 0 {
-				cc.FileInfo.Mode = info.Mode() &^ umask
+				cc.FileInfo.Mode = unixMode(info.Mode()) &^ umask
 			}
 			cc.FileInfo.Size = info.Size()
 		}
@@ -165,6 +165,24 @@ func (c *Content) WithFileInfoDefaults(umask fs.FileMode, mtime time.Time) *Cont
 		cc.FileInfo.MTime = mtime
 	}
 	return cc
+}
+
+// unixMode returns the permission bits of m with setuid, setgid and sticky
+// in their Unix positions (04000, 02000, 01000), the representation an
+// explicit file_info.mode uses and every packager writes out, instead of
+// Go's fs.ModeSetuid/ModeSetgid/ModeSticky flag bits.
+func unixMode(m fs.FileMode) fs.FileMode {
+	mode := m.Perm()
+	if m&fs.ModeSetuid != 0 {
+		mode |= 0o4000
+	}
+	if m&fs.ModeSetgid != 0 {
+		mode |= 0o2000
+	}
+	if m&fs.ModeSticky != 0 {
+		mode |= 0o1000
+	}
+	return mode
 }
 
 // Name to part of the os.FileInfo interface
@@ -508,7 +526,7 @@ func addTree(
 
 			c.Type = TypeDir
 			c.Destination = NormalizeAbsoluteDirPath(destination)
-			c.FileInfo.Mode = info.Mode() &^ fs.ModeType &^ umask
+			c.FileInfo.Mode = unixMode(info.Mode()) &^ umask
 			c.FileInfo.MTime = info.ModTime()
 			if ownedByFilesystem(c.Destination) {
 				c.Type = TypeImplicitDir
